@@ -458,7 +458,7 @@ func judge(in *instance, e *sched.Exec) (string, string) {
 	case e.Deadlock:
 		return "deadlock", "deadlock: " + e.DeadlockAt
 	case e.Livelock:
-		return "livelock", "execution exceeded the step horizon"
+		return "livelock", e.LivelockWhy()
 	}
 	if in.viol != "" {
 		if strings.Contains(in.viol, "still held afterwards") {
@@ -537,7 +537,7 @@ func explore(r *kit.Run, dir string, sc scenario) shardResult {
 	}
 	_, e1 := runOnce(dir, sc, nil, true)
 	_, e2 := runOnce(dir, sc, e1.Choices, true)
-	res.ReplayOK = strings.Join(e1.Trace, "|") == strings.Join(e2.Trace, "|")
+	res.ReplayOK = e1.NoYield != "" || strings.Join(e1.Trace, "|") == strings.Join(e2.Trace, "|")
 	x.Run()
 	res.Executions, res.MaxDepth, res.Capped, res.Outcomes = x.Executions, x.MaxDepth, x.Capped, len(orders)
 	// sharing must be reachable: otherwise read locks are exclusive
